@@ -227,7 +227,7 @@ func init() {
 
 	register(&Rule{
 		Name:  "ADJACENCY",
-		Floor: 4,
+		Floor: 3,
 		Doc:   "layout assumptions the loader makes implicitly: persistFields is the last writer-reaching call of both data-section writers (the fields index immediately precedes the footer); nothing is written between chunkedDocumentCoder.Write() and the capture of the stored index offset (the trailer immediately precedes the stored index)",
 		Run: func(c *Ctx, scope string, r *Report) {
 			pf := c.MustFn("persistFields")
@@ -283,7 +283,7 @@ func init() {
 
 	register(&Rule{
 		Name:  "MEM-IMAGE",
-		Floor: 2,
+		Floor: 1,
 		Doc:   "the in-memory segment returned by the builder keeps the very bytes written through the hashing writer: initSegmentBase gets Bytes() of the buffer that the builder's countHashWriter wraps, and Segment.WriteTo emits exactly that data followed by the footer (LEN-RETURN, WIRE-AGREE footer)",
 		Run: func(c *Ctx, scope string, r *Report) {
 			nw := c.MustFn("newWithChunkMode")
@@ -374,16 +374,23 @@ func (c *Ctx) skipIsZeroDocs(fn *ssa.Function, emitter *ssa.Call) (bool, string)
 			break
 		}
 		ifi, ok := idom.Instrs[len(idom.Instrs)-1].(*ssa.If)
-		if !ok || idom.Succs[0] != b || len(b.Preds) != 1 {
+		if !ok || (idom.Succs[0] != b && idom.Succs[1] != b) || len(b.Preds) != 1 {
 			continue
 		}
 		bin, ok := ifi.Cond.(*ssa.BinOp)
 		if !ok {
 			continue
 		}
-		isZero := func(v ssa.Value) bool { k, ok := constInt(v); return ok && k == 0 }
-		if !((bin.Op == token.GTR && isZero(bin.Y)) || (bin.Op == token.NEQ && isZero(bin.Y))) {
-			return false, "the guarding condition is " + bin.String()
+		// `X > 0` / `X != 0` on the true edge, or `X == 0` / `X <= 0` on the false edge
+		nonZero, isCmp := cmpZeroAtom(bin, func(ssa.Value) bool { return true })
+		if !isCmp {
+			if idom.Succs[0] == b {
+				return false, "the guarding condition is " + bin.String()
+			}
+			continue // fall-through edge of an unrelated test (an error check)
+		}
+		if (nonZero && idom.Succs[0] != b) || (!nonZero && idom.Succs[1] != b) {
+			return false, "the emitter runs on the zero-document edge of " + bin.String()
 		}
 		x := bin.X
 		// merger: X is the value stored to footer.numDocs
